@@ -34,7 +34,7 @@ use std::time::Duration;
 use crate::env::Env;
 use crate::exec::{execute, End};
 use crate::gen::{Gen, Tier};
-use crate::plan::{Replay, Scenario};
+use crate::plan::{Op, Replay, Scenario};
 use crate::runner::*;
 use crate::stats::Stats;
 
@@ -798,6 +798,11 @@ fn cmd_fsmodel(args: &[String]) -> i32 {
         let mut saves = 0u64;
         for i in 0..runs {
             let plan = Gen::new(&env, run_seed(DEFAULT_SEED, scenario, i), Tier::Quick).plan(scenario);
+            // fault-free runs only: an armed write fault or a directory that is taken away has
+            // no counterpart on the real file system of this selftest
+            if plan.ops.iter().any(|o| matches!(o, Op::SetDir { .. } | Op::Arm { .. } | Op::Heal | Op::DenyOpen { .. } | Op::PowerLoss)) {
+                continue;
+            }
             let mut st = Stats::default();
             let (a, _) = execute(&env, &plan, &mut st, exec_opts(scenario, false));
             saves += st.get("save.complete");
@@ -829,11 +834,11 @@ fn cmd_probes(args: &[String]) -> i32 {
     let env = Arc::new(Env::load().unwrap_or_else(|e| die(&e)));
     let known = Arc::new(KnownFindings::load(&format!("{}/known_findings.json", env.paths.verif)).unwrap_or_else(|e| die(&e)));
     let required: Vec<(Scenario, Vec<&str>)> = vec![
-        (Scenario::Crashfree, vec!["probe.keypad_enter_or_equals", "probe.composition_ge_32", "probe.update_phonetic_to_fixed", "probe.update_fixed_to_phonetic", "probe.update_fixed_to_fixed", "probe.update_same_layout", "probe.learning_commit_saved_or_tried", "fault.process_restart", "op.ctrl_bs", "op.finish"]),
-        (Scenario::Wellformed, vec!["oracle.sel_in_range_judged", "oracle.aux_fixed_compared", "oracle.aux_phonetic_judged", "probe.composition_ge_32"]),
-        (Scenario::HistoryIndependence, vec!["oracle.C05_execution_compared", "fault.process_restart", "op.drain"]),
-        (Scenario::SessionReset, vec!["oracle.twin_compared", "oracle.idle_backspace_judged", "oracle.drain_liveness_judged", "oracle.empty_backspace_judged", "oracle.idle_after_terminator_judged", "probe.twin_forked", "probe.learning_commit_saved_or_tried"]),
-        (Scenario::LearnedDurability, vec!["oracle.L1_judged", "oracle.L2_judged", "oracle.L3_judged", "oracle.L4_store_shape_judged", "fault.process_restart"]),
+        (Scenario::Crashfree, vec!["probe.keypad_enter_or_equals", "probe.composition_ge_32", "probe.update_phonetic_to_fixed", "probe.update_fixed_to_phonetic", "probe.update_fixed_to_fixed", "probe.update_same_layout", "probe.learning_commit_saved_or_tried", "fault.process_restart", "op.ctrl_bs", "op.finish", "fault.save_failed_in_history_scenario", "fault.dir_Missing", "fault.dir_ReadOnly", "fault.file_document.Store"]),
+        (Scenario::Wellformed, vec!["oracle.sel_in_range_judged", "oracle.aux_fixed_compared", "oracle.aux_phonetic_judged", "probe.composition_ge_32", "fault.save_failed_in_history_scenario", "fault.dir_Missing", "fault.dir_ReadOnly", "fault.file_document.Store"]),
+        (Scenario::HistoryIndependence, vec!["oracle.C05_execution_compared", "fault.process_restart", "op.drain", "probe.update_same_layout", "fault.file_moved_aside.Autocorrect", "fault.file_moved_back.Autocorrect"]),
+        (Scenario::SessionReset, vec!["oracle.twin_compared", "oracle.idle_backspace_judged", "oracle.drain_liveness_judged", "oracle.empty_backspace_judged", "oracle.idle_after_terminator_judged", "probe.twin_forked", "probe.learning_commit_saved_or_tried", "fault.save_failed_in_history_scenario", "probe.update_in_lock_step", "probe.update_same_layout"]),
+        (Scenario::LearnedDurability, vec!["oracle.L1_judged", "oracle.L2_judged", "oracle.L3_judged", "oracle.L4_store_shape_judged", "fault.process_restart", "oracle.L3_judged_list_off"]),
         (Scenario::UserfileFaults, vec![
             "fault.crash_during_save", "fault.torn_inside", "fault.torn_at_0", "fault.file_truncate.Store", "fault.file_truncate.Autocorrect", "fault.file_document.Store", "fault.file_document.Autocorrect",
             "fault.file_absent.Store", "fault.file_empty.Store", "fault.file_bitflip.Store", "fault.dir_Missing", "fault.dir_ReadOnly", "fault.save_open_fails.NotFound", "fault.save_open_fails.Access", "fault.save_open_fails.Rofs",
@@ -841,9 +846,9 @@ fn cmd_probes(args: &[String]) -> i32 {
             "oracle.F3_failed_save_judged", "oracle.F4_recovery_judged", "oracle.F4_new_context_judged", "oracle.twin_compared", "oracle.L1_planted_judged", "probe.update_phonetic_to_fixed",
         ]),
         (Scenario::Reconfigure, vec!["oracle.twin_compared", "probe.update_phonetic_to_fixed", "probe.update_fixed_to_phonetic", "probe.update_fixed_to_fixed", "probe.update_same_layout", "fault.file_document.Autocorrect", "fault.mtime_tie", "fault.mtime_regress", "probe.learning_commit_saved_or_tried"]),
-        (Scenario::FixedRules, vec!["oracle.C12_step_judged", "oracle.C12_backspace_judged"]),
-        (Scenario::Reph, vec!["oracle.reph_placement_judged", "oracle.reph_conservation_judged", "oracle.reph_off_judged", "probe.reph_on_empty"]),
-        (Scenario::KarOrderEquiv, vec!["oracle.C14_syllable_compared", "oracle.C14_pending_judged", "oracle.C14_pending_backspace_judged"]),
+        (Scenario::FixedRules, vec!["oracle.C12_step_judged", "oracle.C12_backspace_judged", "probe.update_same_layout"]),
+        (Scenario::Reph, vec!["oracle.reph_placement_judged", "oracle.reph_conservation_judged", "oracle.reph_off_judged", "probe.reph_on_empty", "probe.update_same_layout"]),
+        (Scenario::KarOrderEquiv, vec!["oracle.C14_syllable_compared", "oracle.C14_pending_judged", "oracle.C14_pending_backspace_judged", "oracle.C14_midway_compared", "probe.update_same_layout", "probe.commit_with_nothing_shown_becomes_finish"]),
     ];
     let mut rc = 0;
     for (scenario, names) in required {
